@@ -616,7 +616,11 @@ class Evaluator:
 
     def compare(self, op, a, b):
         conc = lambda x: isinstance(x, (bool, int, str)) and not isinstance(x, Sym)  # noqa: E731
-        if conc(a) and conc(b) or (isinstance(a, (V, tuple, list, St)) and isinstance(b, type(a)) and not self.has_sym(a) and not self.has_sym(b)):
+        if isinstance(a, St) and isinstance(b, St) and op in ("Eq", "Ne") and a.ty == b.ty and set(a.f) == set(b.f):
+            res = all(self.compare("Eq", a.f[k_], b.f[k_]) for k_ in sorted(a.f))
+            return res if op == "Eq" else not res
+        if conc(a) and conc(b) or (isinstance(a, (V, tuple, list, St)) and isinstance(b, type(a)) and not self.has_sym(a) and not self.has_sym(b)
+                                   and not (op in ("Eq", "Ne") and isinstance(a, V))):
             try:
                 return {"Eq": a == b, "Ne": a != b, "Lt": a < b, "Le": a <= b, "Gt": a > b, "Ge": a >= b}[op]
             except TypeError:
@@ -780,9 +784,11 @@ class Evaluator:
                 if not ok:
                     return False
                 for i, s in enumerate(p["before"]):
-                    self.bind(s, Sym(("index", v.t, ("lit", i))), env)
+                    if not self.bind(s, Sym(("index", v.t, ("lit", i))), env):
+                        return False
                 for i, s in enumerate(p["after"]):
-                    self.bind(s, Sym(("index", v.t, ("lit", -(len(p["after"]) - i)))), env)
+                    if not self.bind(s, Sym(("index", v.t, ("lit", -(len(p["after"]) - i)))), env):
+                        return False
                 if p.get("mid") is not None:
                     self.bind(p["mid"], Sym(("slice", v.t)), env)
                 return True
@@ -1527,6 +1533,20 @@ class Evaluator:
             return self.compare(name.capitalize(), args[0], args[1])
         if base in ("core::mem::replace",) and len(args) == 2:
             return args[0]
+        if name in ("to_le_bytes", "to_be_bytes") and len(args) == 1 and isinstance(a0, int) and not isinstance(a0, bool):
+            m_ = re.match(r"^(u8|u16|u32|u64|u128|usize)::to_(le|be)_bytes$", base)
+            if m_ and a0 >= 0:
+                nb = {"u8": 1, "u16": 2, "u32": 4, "u64": 8, "u128": 16, "usize": 8}[m_.group(1)]
+                if a0 < (1 << (8 * nb)):
+                    bs_ = [(a0 >> (8 * k_)) & 0xFF for k_ in range(nb)]
+                    return bs_ if m_.group(2) == "le" else bs_[::-1]
+        if name == "try_from" and len(args) == 1 and isinstance(a0, int) and not isinstance(a0, bool) and node is not None:
+            m_ = re.search(r"Result<(u8|u16|u32|u64|usize|i8|i16|i32|i64|isize),\s*core::num::(error::)?TryFromIntError>", str(node.get("rty") or ""))
+            if m_:
+                t_ = m_.group(1)
+                bits = {"u8": 8, "u16": 16, "u32": 32, "u64": 64, "usize": 64, "i8": 8, "i16": 16, "i32": 32, "i64": 64, "isize": 64}[t_]
+                lo_, hi_ = (0, (1 << bits) - 1) if t_[0] == "u" else (-(1 << (bits - 1)), (1 << (bits - 1)) - 1)
+                return V("Ok", (a0,)) if lo_ <= a0 <= hi_ else V("Err", (Sym(("call", fn, (("lit", a0),))),))
         if base == "core::mem::take":
             return a0
         if base in ("core::mem::drop", "core::mem::swap"):
@@ -1537,6 +1557,9 @@ class Evaluator:
             r = self.vec_mutator(name, a0, args, depth, node)
             if r is not NotImplemented:
                 return r
+            if name in ("extend", "extend_from_slice", "append") and len(args) == 2 and isinstance(args[1], Sym):
+                # a concrete list extended by an unknown number of unknown elements is no longer a concrete list: say so instead of dropping them
+                raise Abort("Vec::%s of a concrete list with a symbolic operand %s" % (name, fmt(args[1].t)[:60]))
         # iterator sources / adapters / terminals
         r = self.iter_builtin(base, name, args, depth, node)
         if r is not NotImplemented:
@@ -1955,6 +1978,26 @@ class Evaluator:
                 if v.name == "None":
                     break
             return v
+        if name in ("all", "any", "for_each", "find", "position") and len(args) == 2 and isinstance(getattr(self, "max_stream_len", None), int):
+            # bounded traversal: the closure is applied element by element (it may update captured state) until the stream ends
+            # (has(k) = false) or the answer is known; the stream-length bound aborts the path as for explicit loops
+            k0 = st.pos
+            while True:
+                v = self.stream_next(st)
+                if v.name == "None":
+                    return {"all": True, "any": False, "for_each": UNIT, "find": V("None"), "position": V("None")}[name]
+                r = self.apply(args[1], [v.fields[0]], depth)
+                if name == "for_each":
+                    continue
+                b = self.decide_bool(r)
+                if name == "all" and not b:
+                    return False
+                if name == "any" and b:
+                    return True
+                if name == "find" and b:
+                    return V("Some", (v.fields[0],))
+                if name == "position" and b:
+                    return V("Some", (st.pos - 1 - k0,))
         if name in ("all", "any", "find", "position", "count", "last", "collect", "for_each", "try_for_each", "map", "filter", "rev", "enumerate", "zip", "chain", "fold"):
             raise Abort("CharStream::%s (unbounded traversal of a positional stream)" % name)
         return NotImplemented
